@@ -2,3 +2,7 @@ import Quanto.Float
 import Quanto.Tensor
 import Quanto.Symmetric
 import Quanto.Wire
+import Quanto.Generated
+import Quanto.Pack
+import Quanto.Spec.C01
+import Quanto.Spec.C04
